@@ -121,6 +121,17 @@ type Trace struct {
 	End    EndKind
 	Ret    []*Sym
 	Params []*Sym
+	// Cut: for a path cut at a loop header after the generalised iteration, how each loop-carried
+	// variable (phi of that header) is transformed by that iteration: Next expressed over Cur.
+	Cut []PhiStep
+}
+
+// PhiStep is one loop-carried variable's transition across a generalised iteration.
+type PhiStep struct {
+	Phi  *ssa.Phi
+	Name string
+	Cur  *Sym
+	Next *Sym
 }
 
 // callName gives a comparable name for the callee of a call event: "pkgpath.Func" or
@@ -225,6 +236,7 @@ type state struct {
 	panicking *Sym
 	steps     int
 	gen       int
+	cut       []PhiStep
 }
 
 type Tracer struct {
@@ -392,5 +404,5 @@ func (tr *Tracer) finish(st *state, end EndKind, ret []*Sym) {
 	for e := st.events; e != nil; e = e.prev {
 		evs[e.n] = e.ev
 	}
-	tr.traces = append(tr.traces, &Trace{Entry: tr.entry, Events: evs, End: end, Ret: ret, Params: tr.params})
+	tr.traces = append(tr.traces, &Trace{Entry: tr.entry, Events: evs, End: end, Ret: ret, Params: tr.params, Cut: st.cut})
 }
